@@ -24,12 +24,19 @@ def run(ctx):
         'along the right axes',
         'R3 the dT vector is built from the profile stored with the peak of '
         'the same key, inlet temperature prepended; subfactor columns are '
-        'cropped to the dT count']
+        'cropped to the dT count',
+        'R4 result rows stay attached to their assembly: the id list and the '
+        'temperature rows are extended in the same block, and after '
+        'order = argsort(ids) every returned container is reordered by a '
+        'gather through that same permutation (x[order] / [x[i] for i in '
+        'order]); a scatter (x[order] = ...) applies the inverse permutation']
     ctx.not_decided += ['numerical values', 'expression evaluation (eval) of '
                         'dT-dependent subfactors']
     r1(ctx)
     r2(ctx)
     r3(ctx)
+    r4(ctx)
+    ctx.min_instances('C19.R4', 3)
     ctx.min_instances('C19.R1', 8)
     ctx.min_instances('C19.R2', 9)
     ctx.min_instances('C19.R3', 4)
@@ -285,3 +292,109 @@ def r3(ctx):
                         'hot-spot calculation, which _setup_postprocess '
                         'allows without one: the run ends in AssertionError',
                         key=gp.full + ' | pin assert only for pin locations')
+
+
+# ---------------------------------------------------------------------------
+# R4: parallel containers are permuted consistently
+
+def _is_gather(value, cont, perm):
+    """value re-orders container `cont` (source text) by a gather through
+    the permutation name `perm`."""
+    if isinstance(value, ast.Subscript) and isinstance(value.slice, ast.Name)\
+            and value.slice.id == perm:
+        return cont in src(value.value)
+    if isinstance(value, ast.ListComp) and len(value.generators) == 1:
+        g = value.generators[0]
+        if isinstance(g.iter, ast.Name) and g.iter.id == perm and \
+                isinstance(g.target, ast.Name) and not g.ifs and \
+                isinstance(value.elt, ast.Subscript) and \
+                src(value.elt.value) == cont and \
+                src(value.elt.slice) == g.target.id:
+            return True
+    if isinstance(value, ast.Call) and call_name(value) in ('np.take',) and \
+            len(value.args) >= 2 and src(value.args[1]) == perm:
+        return cont in src(value.args[0])
+    if isinstance(value, ast.Call) and call_name(value) in (
+            'np.array', 'np.asarray', 'list', 'np.vstack') and value.args:
+        return _is_gather(value.args[0], cont, perm)
+    return False
+
+
+def r4(ctx):
+    fi = ctx.repo.func('hotspot', 'analyze')
+    perms = [st for st in walk_no_nested(fi.node) if isinstance(st, ast.Assign)
+             and isinstance(st.targets[0], ast.Name)
+             and isinstance(st.value, ast.Call) and (
+                 call_name(st.value) in ('np.argsort',) or (
+                     isinstance(st.value.func, ast.Attribute)
+                     and st.value.func.attr == 'argsort'))]
+    if len(perms) != 1:
+        raise AnalysisError('hotspot.analyze: expected one argsort '
+                            'permutation, found %d' % len(perms))
+    pst = perms[0]
+    perm = pst.targets[0].id
+    key_cont = src(pst.value.args[0]) if pst.value.args else \
+        src(pst.value.func.value)
+    rets = [r for r in walk_no_nested(fi.node) if isinstance(r, ast.Return)
+            and r.value is not None
+            and not isinstance(r.value, ast.Constant)]
+    if len(rets) != 1:
+        raise AnalysisError('hotspot.analyze: return shape')
+    rv = rets[0].value
+    returned = [src(e) for e in (rv.elts if isinstance(rv, ast.Tuple)
+                                 else [rv])]
+    ksub = key_cont[key_cont.index('['):] if '[' in key_cont else ''
+    ctx.require(key_cont.split('[')[0] in returned, 'C19.R4', fi, pst,
+                'the permutation must sort the returned id list',
+                key=fi.full + ' | permutation key')
+    # no scatter through the permutation
+    for n in walk_no_nested(fi.node):
+        if isinstance(n, ast.Subscript) and isinstance(n.ctx, ast.Store) and \
+                any(isinstance(x, ast.Name) and x.id == perm
+                    for x in ast.walk(n.slice)):
+            ctx.violation('C19.R4', fi, n, 'rows are scattered through the '
+                          'sorting permutation (x[%s] = ...): that applies '
+                          'the inverse permutation, so temperatures are '
+                          'attached to the wrong assembly ids' % perm,
+                          key=fi.full + ' | scatter through ' + perm)
+    blk = parent(pst)
+    body = [s_ for s_ in walk_no_nested(fi.node)
+            if isinstance(s_, ast.Assign) and s_.lineno > pst.lineno]
+    for name in returned:
+        cont = name + ksub
+        # the last assignment to the container after the permutation is a
+        # gather of the container (possibly stacked first)
+        asg = [s_ for s_ in body if src(s_.targets[0]) == cont]
+        ok = False
+        seen_gather = 0
+        for s_ in asg:
+            if _is_gather(s_.value, cont, perm):
+                seen_gather += 1
+        ok = seen_gather == 1
+        ctx.require(ok, 'C19.R4', fi, asg[-1] if asg else pst,
+                    'returned container %s must be re-ordered exactly once '
+                    'by a gather through %s (found %d)' % (cont, perm,
+                                                           seen_gather),
+                    key='%s | gather %s' % (fi.full, name))
+    # lockstep extension: ids and rows are extended in the same block
+    ext = {}
+    for n in walk_no_nested(fi.node):
+        if isinstance(n, ast.AugAssign) and isinstance(n.op, ast.Add) and \
+                src(n.target).split('[')[0] in returned:
+            ext.setdefault(src(n.target).split('[')[0], []).append(n)
+        if isinstance(n, ast.Call) and isinstance(n.func, ast.Attribute) and \
+                n.func.attr in ('append', 'extend') and \
+                src(n.func.value).split('[')[0] in returned:
+            ext.setdefault(src(n.func.value).split('[')[0], []).append(n)
+    ok = set(ext) == set(returned) and all(len(v) == 1 for v in ext.values())
+    if ok:
+        def blk_of(n):
+            st = n
+            while not isinstance(st, ast.stmt):
+                st = parent(st)
+            return parent(st)
+        ok = len({id(blk_of(v[0])) for v in ext.values()}) == 1
+    ctx.require(ok, 'C19.R4', fi, fi.node,
+                'ids and temperature rows must be extended once each, in the '
+                'same block (same assembly type, same location)',
+                key=fi.full + ' | lockstep extension')
